@@ -25,7 +25,9 @@ TARGETS = [
     ('amqpstorm/channel.py', 'Channel', '_close_channel'),
     ('amqpstorm/channel.py', 'Channel', 'check_for_errors'),
     ('amqpstorm/channel.py', 'Channel', 'check_for_exceptions'),
+    ('amqpstorm/channel.py', 'Channel', 'process_data_events'),
     ('amqpstorm/basic.py', 'Basic', 'publish'),
+    ('amqpstorm/basic.py', 'Basic', 'consume'),
     ('amqpstorm/basic.py', 'Basic', '_publish_confirm'),
     ('amqpstorm/rpc.py', 'Rpc', 'register_request'),
     ('amqpstorm/rpc.py', 'Rpc', 'on_frame'),
@@ -101,6 +103,10 @@ def call_id(call, cls):
         return 'KPublishConfirm'
     if name == 'send_close_connection':
         return 'KSendConnClose'
+    if name == '_consume_rpc_request':
+        return 'KConsumeRpc'
+    if name == '_consume_add_and_get_tag':
+        return 'KConsumeAddTag'
     if name == 'set_state' and len(call.args) == 1:
         a = dotted(call.args[0])
         return {'CLOSED': 'KSetClosed', 'CLOSING': 'KSetClosing', 'OPEN': 'KSetOpen',
@@ -188,6 +194,9 @@ class Walker(object):
         if isinstance(node, ast.Subscript) and isinstance(node.ctx, ast.Load) and \
                 dotted(node.value)[-1] in ('exceptions', '_exceptions'):
             self.emit('TCall KExcHead')        # a queued error is read (not removed)
+        if isinstance(node, ast.Subscript) and isinstance(node.ctx, ast.Load) and \
+                dotted(node.value)[-1] == '_consumer_callbacks':
+            self.emit('TCall KLookupCallback')
         for child in ast.iter_child_nodes(node):
             if isinstance(child, ast.expr):
                 self.expr(child)
@@ -224,6 +233,8 @@ class Walker(object):
                     self.emit('TCall KStoreChannel')
                 if isinstance(t, ast.Attribute) and t.attr == '_consumer_tags':
                     self.emit('TCall KTagsRebind')
+                if isinstance(t, ast.Subscript) and dotted(t.value)[-1] == '_consumer_callbacks':
+                    self.emit('TCall KBindCallback')
                 if isinstance(t, ast.Subscript) and dotted(t.value)[-1] == '_request':
                     self.emit('TCall KStoreRequest')
                 if isinstance(t, ast.Subscript) and dotted(t.value)[-1] == '_response':
